@@ -233,6 +233,69 @@ func TestVerif_C19(t *testing.T) {
 	}
 	c.SetExhaustive(true)
 
+	// Part 1b: observation is not free of side effects in every implementation (GetHistory
+	// reuses an internal slice), so the monitor must not only look after every operation:
+	// from every reachable state, observe, apply k in 1..3N+1 operations WITHOUT looking, observe again.
+	for N := 1; N <= 6; N++ {
+		seen := map[string]bool{}
+		start := newRingPair(N)
+		seen[start.key()] = true
+		queue := [][]byte{nil}
+		for len(queue) > 0 {
+			cur := queue[0]
+			queue = queue[1:]
+			for k := 1; k <= 3*N+1; k++ {
+				for tail := 0; tail < 3; tail++ { // the unobserved stretch: k moves, optionally ending in mark / reset+move
+					myIdx := idx
+					idx++
+					if !c.Mine(myIdx) {
+						continue
+					}
+					cur, k, tail, N := cur, k, tail, N
+					c.Case(myIdx, func() interface{} {
+						return map[string]interface{}{"capacity": N, "prefix_ops": opsString(cur), "then": "observe", "unobserved_moves": k, "tail": []string{"none", "set-as-oldest", "move after set-as-oldest"}[tail]}
+					}, func() {
+						p := newRingPair(N)
+						for _, o := range cur {
+							p.apply(int(o))
+						}
+						if kind, detail := p.check(); kind != "" {
+							c.Violation("ring-"+kind, fmt.Sprintf("capacity %d", N), detail)
+							return
+						}
+						for i := 0; i < k; i++ {
+							p.apply(opMove)
+						}
+						switch tail {
+						case 1:
+							p.apply(opMark)
+						case 2:
+							p.apply(opMark)
+							p.apply(opMove)
+						}
+						if kind, detail := p.check(); kind != "" {
+							c.Violation("ring-"+kind, fmt.Sprintf("capacity %d; sparse observation", N), fmt.Sprintf("%s after prefix %s, an observation, then %d unobserved moves (tail %d)", detail, opsString(cur), k, tail))
+							return
+						}
+						c.Count("sparse_observation_pairs", 1)
+						c.Nontrivial(vNewHash().Int(N).Bytes(cur).Int(k).Int(tail).Int(77).Sum())
+					})
+				}
+			}
+			for op := 0; op < 3; op++ {
+				ops := append(append([]byte{}, cur...), byte(op))
+				p := newRingPair(N)
+				for _, o := range ops {
+					p.apply(int(o))
+				}
+				if k := p.key(); !seen[k] {
+					seen[k] = true
+					queue = append(queue, ops)
+				}
+			}
+		}
+	}
+
 	// Part 2: random long sequences, capacities up to 64 (and the detector's
 	// usage shape: gap+1 rings with occasional marks).
 	nseq := c.N(400, 20000)
@@ -259,6 +322,7 @@ func TestVerif_C19(t *testing.T) {
 		}, func() {
 			p := newRingPair(N)
 			h := vNewHash().Int(N)
+			lookMode, nextLook := int(myIdx%3), 0
 			for i := 0; i < nops; i++ {
 				op := opMove
 				r := rng.Intn(100)
@@ -271,6 +335,19 @@ func TestVerif_C19(t *testing.T) {
 				p.apply(op)
 				h.Int(op)
 				c.Count("random_ops", 1)
+				// look only now and then (every op, sparse, or a whole number of laps apart)
+				if nextLook > i {
+					continue
+				}
+				switch lookMode {
+				case 0:
+					nextLook = i + 1
+				case 1:
+					nextLook = i + 1 + rng.Intn(2*N+2)
+				default:
+					nextLook = i + N*rng.Range(1, 3)
+				}
+				c.Count("random_observations", 1)
 				if kind, detail := p.check(); kind != "" {
 					c.Violation("ring-"+kind, fmt.Sprintf("capacity %d", N), detail)
 					return
